@@ -46,6 +46,64 @@ pub mod channel {
     pub use simrt::chan::register_debug;
 }
 
+/// `async_std::sync`: the real lock types (async-lock: pure futures, no thread of their own,
+/// so they run unchanged on the simulator's executor) behind a scheduling point before every
+/// acquisition, so that who gets a lock first is a scheduler decision. A task waiting for a lock
+/// that is never released shows up as a stall.
+pub mod sync {
+    pub use real_async_std::sync::{Arc, Barrier, BarrierWaitResult, MutexGuard, RwLockReadGuard, RwLockWriteGuard, Weak};
+
+    pub struct Mutex<T: ?Sized>(real_async_std::sync::Mutex<T>);
+    impl<T> Mutex<T> {
+        pub const fn new(t: T) -> Self {
+            Mutex(real_async_std::sync::Mutex::new(t))
+        }
+        pub fn into_inner(self) -> T {
+            self.0.into_inner()
+        }
+    }
+    impl<T: ?Sized> Mutex<T> {
+        pub async fn lock(&self) -> MutexGuard<'_, T> {
+            simrt::rt::sched_point("mutex-lock").await;
+            self.0.lock().await
+        }
+        pub fn try_lock(&self) -> Option<MutexGuard<'_, T>> {
+            self.0.try_lock()
+        }
+        pub fn get_mut(&mut self) -> &mut T {
+            self.0.get_mut()
+        }
+    }
+    impl<T: Default> Default for Mutex<T> {
+        fn default() -> Self {
+            Mutex::new(T::default())
+        }
+    }
+
+    pub struct RwLock<T: ?Sized>(real_async_std::sync::RwLock<T>);
+    impl<T> RwLock<T> {
+        pub const fn new(t: T) -> Self {
+            RwLock(real_async_std::sync::RwLock::new(t))
+        }
+        pub fn into_inner(self) -> T {
+            self.0.into_inner()
+        }
+    }
+    impl<T: ?Sized> RwLock<T> {
+        pub async fn read(&self) -> RwLockReadGuard<'_, T> {
+            simrt::rt::sched_point("rwlock-read").await;
+            self.0.read().await
+        }
+        pub async fn write(&self) -> RwLockWriteGuard<'_, T> {
+            simrt::rt::sched_point("rwlock-write").await;
+            self.0.write().await
+        }
+        pub fn get_mut(&mut self) -> &mut T {
+            self.0.get_mut()
+        }
+    }
+}
+
 pub mod fs;
 pub mod path;
 pub mod task;
